@@ -163,7 +163,7 @@ func c19Client(c *vf.Ctx, st *findServer, srv *httptest.Server) {
 		c.Fail(sub, 0, "client-new", err.Error(), nil)
 		return
 	}
-	n := c.N(8000, 100000)
+	n := c.N(8000, 300000)
 	for i := 0; i < n; i++ {
 		if !c.Mine(sub, i) {
 			continue
@@ -295,7 +295,7 @@ func c19Raw(c *vf.Ctx, st *findServer, srv *httptest.Server) {
 	if !c.Active(sub) {
 		return
 	}
-	n := c.N(20000, 200000)
+	n := c.N(20000, 600000)
 	hc := srv.Client()
 	for i := 0; i < n; i++ {
 		if !c.Mine(sub, i) {
@@ -464,7 +464,7 @@ func c19APIError(c *vf.Ctx) {
 	if !c.Active(sub) {
 		return
 	}
-	n := c.N(8000, 100000)
+	n := c.N(8000, 300000)
 	for i := 0; i < n; i++ {
 		if !c.Mine(sub, i) {
 			continue
